@@ -69,7 +69,7 @@ void flush_out()
     size_t off = 0;
     while (off < shm->out_len) {
         ssize_t w = ::write(1, shm->out + off, shm->out_len - off);
-        if (w <= 0) { _exit(3); }
+        if (w <= 0) { vh_exit(3); }
         off += (size_t)w;
     }
     shm->out_len = 0;
@@ -811,7 +811,7 @@ struct Runner {
             if (!begin_call(true, emit)) { continue; }
             if (step(c["op"].get<std::string>(), c["o"].get<std::string>() == "a" ? 0 : 1, x_of(c["x"]), true, emit) != 0) {
                 std::fprintf(stderr, "path call not drivable: %s\n", c["op"].get<std::string>().c_str());
-                _exit(2);
+                vh_exit(2);
             }
         }
         if (g.contains("pre")) { // the path must have produced the planned state (its own events are judged like all others)
@@ -1091,7 +1091,7 @@ void dispatch_cap(Job const& job, long r0, long c0, std::index_sequence<Ns...>)
     (one(std::integral_constant<size_t, Ns>{}), ...);
     if (!found) {
         std::fprintf(stderr, "capacity %ld not compiled in\n", job.cap);
-        _exit(2);
+        vh_exit(2);
     }
 }
 
@@ -1102,7 +1102,7 @@ void child(Job const& job, long r0, long c0)
     if (job.type == VH_STR(VH_CHAR)) { dispatch_cap<VH_CHAR>(job, r0, c0, caps); }
     else {
         std::fprintf(stderr, "char type %s not compiled in\n", job.type.c_str());
-        _exit(2);
+        vh_exit(2);
     }
 }
 
@@ -1159,7 +1159,7 @@ int main(int argc, char** argv)
                 if (fd >= 0) { dup2(fd, 2); }
             }
             child(job, rec0, call0);
-            _exit(0);
+            vh_exit(0);
         }
         int st = 0;
         if (waitpid(pid, &st, 0) < 0) {
